@@ -317,14 +317,15 @@ theorem unused_rule (ss : Session) :
   all_goals (rename_i p; cases p <;> simp)
 
 /-- **session_ends_once** (the "only" half): in any step from any state, a session that was alive
-before and is gone after ended for one of the listed reasons — its stream timeout fired; a TEARDOWN
+before and is gone after ended for one of the listed reasons — its stream timeout fired (`expire`,
+or the composite `silence`, in which read deadlines and stream timeouts run out); a TEARDOWN
 was answered 200 (without error); the client closed a connection (or made the server close it by
 sending something that is not a request), or the server closed one after an error response, and that
 connection was the session's only one at that moment (and the session was
 not streaming over UDP / multicast: `endsWhenUnused`, see `unused_rule`). -/
 theorem ends_only_for_a_reason (cfg : Config) (srv : Server) (e : Event) (id : Nat)
     (hid : id ∈ sessIds srv) (hgone : id ∉ sessIds (stepEv cfg srv e).1) :
-    e = .expire id ∨
+    e = .expire id ∨ e = .silence ∨
     (∃ c r res, e = .req c r ∧ (stepEv cfg srv e).2 = some res ∧ r.method = .teardown ∧
         res.status = 200 ∧ res.err ≠ .fail) ∨
     (∃ c cn ss, (e = .close c ∨ e = .frame c ∨ e = .response c) ∧ findConn srv c = some cn ∧ cn.sess = some id ∧
